@@ -136,6 +136,17 @@ def eval_expr(e, env):
             "+": lambda: a + b, "-": lambda: a - b, "*": lambda: a * b, "/": lambda: a // b, "%": lambda: a % b}[o]()
 
 
+def folded_u8(t):
+    """Names of the plain uint8 members of t and of its anonymous members (recursively)."""
+    out = []
+    for f in t["fields"]:
+        if not f["bits"] and f["type"]["k"] == "int" and f["type"]["name"] == "uint8":
+            out.append(f["name"])
+        elif f.get("anon") and f["type"]["k"] in ("struct", "union"):
+            out += folded_u8(f["type"])
+    return out
+
+
 def expr_refs(e, names):
     """Does the tree mention one of `names`?"""
     k = e["k"]
@@ -645,6 +656,9 @@ class Gen:
                 sub_anon = cfg["anon"] and rnd.random() < 0.25
                 sub = self.struct(depth - 1, union=sub_union, anon=sub_anon)
                 fields.append(field(fname, sub, anon=sub_anon))
+                if sub_anon:
+                    # the members of an anonymous member are members of this structure: later lengths may name them (finding F39)
+                    refs += folded_u8(sub)
                 if not sub_anon and cfg.get("inline", True) and rnd.random() < 0.2:
                     fields[-1]["inline"] = True
                 cur[0] = None
